@@ -158,6 +158,74 @@ func c06Exec(op string) string {
 			}
 		}
 		return "ok " + encStr(string(b)) + " | " + strings.Join(notes, "; ")
+	case "jenci":
+		// jenci safe prefix indent map : Map.JsonIndent(prefix, indent, safe) byte for byte beside
+		// Forms.mapJsonIndent, then NewMapJson (JsonUseNumber) of those bytes beside Json.newMapJson
+		safe := c.boolean()
+		pfx := c.str()
+		ind := c.str()
+		mv := c.mapVal()
+		if c.err != nil {
+			return "bad-op " + c.err.Error()
+		}
+		m := toFloats(mv).(map[string]interface{})
+		if len(op)%2 == 0 {
+			internShared(m)
+		}
+		var bi []byte
+		var ierr error
+		if safe || len(op)%3 == 0 {
+			bi, ierr = mxj.Map(m).JsonIndent(pfx, ind, safe)
+		} else {
+			bi, ierr = mxj.Map(m).JsonIndent(pfx, ind) // the argument-less form is the default encoding
+		}
+		if ierr != nil {
+			return "err " + oneLine(ierr.Error())
+		}
+		kept := string(bi)
+		notes := []string{}
+		layoutWs := strings.Trim(pfx+ind, " \t\r\n") == ""
+		if ref := refEncode(m, safe, true, pfx, ind); !bytes.Equal(ref, bi) {
+			notes = append(notes, "JsonIndent differs from encoding/json with the same escaping, prefix and indent")
+		}
+		if pfx == "" && ind == "" {
+			if b, _ := mxj.Map(m).Json(safe); !bytes.Equal(b, bi) {
+				notes = append(notes, "JsonIndent with empty prefix and indent differs from Json()")
+			}
+		}
+		if layoutWs {
+			// the property's own statement: valid JSON that NewMapJson decodes back to the Map
+			if !json.Valid(bi) {
+				notes = append(notes, "JsonIndent() output is not valid JSON: "+clip(string(bi), 200))
+			} else {
+				mxj.JsonUseNumber = false
+				back, derr := mxj.NewMapJson(bi)
+				if derr != nil || !deepEq(map[string]interface{}(back), m) {
+					notes = append(notes, "NewMapJson(JsonIndent(m)) differs from m")
+				}
+				var cb bytes.Buffer
+				if cerr := json.Compact(&cb, bi); cerr != nil {
+					notes = append(notes, "JsonIndent() output cannot be compacted")
+				} else if b, _ := mxj.Map(m).Json(safe); !bytes.Equal(cb.Bytes(), b) {
+					notes = append(notes, "JsonIndent() output without its layout is not the Json() output")
+				}
+			}
+			if safe && bytes.ContainsAny(bi, "<>&") {
+				notes = append(notes, "safe indented encoding contains a literal <, > or &")
+			}
+		}
+		mxj.JsonUseNumber = true
+		back, derr := mxj.NewMapJson(bi)
+		dec := "err"
+		if derr == nil && back != nil {
+			dec = "ok " + enc(map[string]interface{}(back))
+		} else if derr == nil {
+			dec = "ok n"
+		}
+		if string(bi) != kept {
+			notes = append(notes, "KEPT the bytes JsonIndent() returned changed during later calls")
+		}
+		return "ok " + encStr(kept) + " " + dec + " | " + strings.Join(notes, "; ")
 	case "jquote":
 		html := c.boolean()
 		s := c.str()
@@ -255,6 +323,11 @@ func c06Describe(op string) string {
 	case "jenc":
 		safe := c.boolean()
 		return fmt.Sprintf("Json(safe=%v)/JsonIndent/Copy map=%s", safe, jsonOf(c.mapVal()))
+	case "jenci":
+		safe := c.boolean()
+		pfx := c.str()
+		ind := c.str()
+		return fmt.Sprintf("JsonIndent(%q, %q, safe=%v) then NewMapJson map=%s", pfx, ind, safe, jsonOf(c.mapVal()))
 	case "jquote":
 		html := c.boolean()
 		return fmt.Sprintf("string literal html=%v %q", html, c.str())
@@ -355,6 +428,27 @@ func (r *Rng) jsonMap(depth int) map[string]interface{} {
 	return m
 }
 
+// jsonLayout draws a prefix / indent argument of JsonIndent: JSON white space of varied length
+// (empty, blanks, tabs, CR, LF, mixed), rarely something else (the output is then no JSON: bytes
+// and the decoder's refusal are still compared with the model).
+func (r *Rng) jsonLayout(prefix bool) string {
+	if r.P(4) {
+		return r.Pick([]string{"x", ">", "//", " .", "\"", "{", "\u00a0", "\v", "-\t"})
+	}
+	if prefix && r.P(45) || !prefix && r.P(15) {
+		return ""
+	}
+	if r.P(50) {
+		return r.Pick([]string{" ", "  ", "\t", "    ", "\t\t", " \t", "\n", "\r\n", "\r"})
+	}
+	n := 1 + r.Intn(6)
+	var sb strings.Builder
+	for i := 0; i < n; i++ {
+		sb.WriteString(r.Pick([]string{" ", " ", "\t", "\n", "\r"}))
+	}
+	return sb.String()
+}
+
 // jsonText renders a value as JSON text with random white space, escapes and number spellings.
 func (r *Rng) jsonText(v interface{}) string {
 	ws := func() string { return r.Pick([]string{"", "", " ", "\n", "\t ", "\r\n"}) }
@@ -407,6 +501,11 @@ func c06Gen(r *Rng, n int) []string {
 	for len(ops) < n {
 		m := r.jsonMap(0)
 		ops = append(ops, fmt.Sprintf("jenc %d %s", b2i(r.Bool()), encJ(m)))
+		mi := m
+		if r.P(50) {
+			mi = r.jsonMap(0)
+		}
+		ops = append(ops, fmt.Sprintf("jenci %d %s %s %s", b2i(r.Bool()), encStr(r.jsonLayout(true)), encStr(r.jsonLayout(false)), encJ(mi)))
 		ops = append(ops, fmt.Sprintf("jquote %d %s", b2i(r.Bool()), encStr(r.jsonStr())))
 		// texts for the decoder: valid objects, arrays, other first values, then corrupted ones
 		var v interface{} = r.jsonMap(0)
@@ -447,7 +546,7 @@ func c06Gen(r *Rng, n int) []string {
 func init() {
 	register(&Prop{
 		ID:        "C06",
-		Rule:      "Maps of JSON types with keys and string values over a hostile alphabet (< > & backslash quote, the six-character sequences \\u003c \\u003e \\u0026, control characters, U+2028/9, non-BMP); safe and default encoding, JsonIndent, Copy; string literals alone; JSON texts with random white space / escape spellings / number spellings for NewMapJson (objects, arrays, other first values, leading white space, trailing bytes, single-character corruptions, truncations) under JsonUseNumber; non-trivial = encoded / accepted; distinct = distinct op lines",
+		Rule:      "Maps of JSON types with keys and string values over a hostile alphabet (< > & backslash quote, the six-character sequences \\u003c \\u003e \\u0026, control characters, U+2028/9, non-BMP); safe and default encoding, JsonIndent, Copy; JsonIndent(prefix, indent[, safe]) byte for byte beside Forms.mapJsonIndent for white-space prefixes/indents of varied length (empty, blanks, tabs, CR, LF, mixed; rarely other text) and its bytes decoded by NewMapJson beside the model decoder; string literals alone; JSON texts with random white space / escape spellings / number spellings for NewMapJson (objects, arrays, other first values, leading white space, trailing bytes, single-character corruptions, truncations) under JsonUseNumber; non-trivial = encoded / accepted; distinct = distinct op lines",
 		Gen:       c06Gen,
 		Exec:      c06Exec,
 		Judge:     c06Judge,
@@ -467,6 +566,13 @@ func c06Fixed() []string {
 	// F-JSON-REWRITE: literal backslash-u003c etc. in keys and values
 	for _, m := range []map[string]interface{}{{"a": "\\u003c"}, {"\\u0026": "x\\u003ey"}, {"a": "<&>"}, {"k": "\\\\u003c"}} {
 		ops = append(ops, "jenc 0 "+encJ(m), "jenc 1 "+encJ(m))
+	}
+	// JsonIndent: empty containers at every level, prefix placement, empty prefix+indent = compact form,
+	// a prefix that is no white space
+	for _, m := range []map[string]interface{}{{}, {"a": map[string]interface{}{}, "b": []interface{}{}}, {"l": []interface{}{[]interface{}{}, map[string]interface{}{}, []interface{}{nil, true}}, "<k>": "<&>"}, {"n": 1.5, "o": map[string]interface{}{"p": map[string]interface{}{"q": "\\u003c"}}}} {
+		for _, pi := range [][2]string{{"", ""}, {"", " "}, {" ", ""}, {"\t", "  "}, {"\n", "\r\n"}, {"x", " "}, {"", ">"}} {
+			ops = append(ops, fmt.Sprintf("jenci 0 %s %s %s", encStr(pi[0]), encStr(pi[1]), encJ(m)), fmt.Sprintf("jenci 1 %s %s %s", encStr(pi[0]), encStr(pi[1]), encJ(m)))
+		}
 	}
 	return ops
 }
